@@ -460,9 +460,15 @@ def _check_halving(repo, r4):
                         H = Hc + [lo_[2][0]]
             if H is None and name == "half_bits" and rt is not None and rt[0] == "tuple" and len(rt[1]) == 2:
                 # the padding variant may delegate the split to the non-padding one (whose split is judged on its own) and only equalise
-                D = ("call", ("fn", "half_bits_not_padding"), (x0,), ())
-                if rt[1] == (("proj", D, 0), ("proj", D, 1)):
+                Ds = [("call", ("fn", "half_bits_not_padding"), (X_,), ()) for X_ in (x0, ("call", ("fn", "Bitset"), (x0,), ()))]
+                D = next((D_ for D_ in Ds if rt[1] == (("proj", D_, 0), ("proj", D_, 1))), None)
+                if D is not None:
                     H = [("call", ("fn", "len"), (("proj", D, 1),), ())]
+                    # (the right half the non-padding variant hands back is (n + 1) // 2 bits long - its own split is judged above -, so that
+                    # length may also be spelled out)
+                    for X in (x0, ("call", ("fn", "Bitset"), (x0,), ())):
+                        lx = ("call", ("fn", "len"), (X,), ())
+                        H += [("op", "FloorDiv", ("cat", (lx, ("const", 1))), ("const", 2)), ("op", "FloorDiv", ("cat", (("const", 1), lx)), ("const", 2))]
             if H is None:
                 okh = False
                 continue
